@@ -461,6 +461,26 @@ fn on_step<K: Kit>(tier: &str, idx: usize, st: &mut PrmStep<K>, rep: &mut Report
             }
         }
     }
+    // ---- P7: a start that already lies in the goal region (goal = ball around the start): a query still
+    // succeeds exactly when a milestone reachable from the start is connected to a milestone in the goal -
+    // with no such milestone there is no answer, "the start is there already" included
+    {
+        let dist7 = dist_fn::<K>(&st.sc.spec);
+        let p7_goal = Arc::new(HGoal::<K>::new(vec![(start.clone(), st.sc.goal_balls[0].1)], vec![start.clone()], dist7));
+        let pd7 = Arc::new(Pd::<K> { space: st.rig.space.clone(), start_states: vec![start.clone()], goal: p7_goal.clone() });
+        st.rig.drv.set_problem_definition(pd7);
+        let res7 = match guarded(|| st.rig.drv.solve(LONG)) {
+            Ok(r) => r,
+            Err(_) => fail!("query-panicked", "solve unwound for a start inside the goal region".into(), "query-P7"),
+        };
+        rep.count("start_in_goal_queries", 1);
+        if res7.is_err() {
+            rep.count("start_in_goal_queries_without_answer", 1);
+        }
+        if let Err((k, w)) = check_query::<K>(st.rig, post, &start, &p7_goal, &res7, rep) {
+            fail!(format!("replaced-problem:{k}"), w, "query-P7");
+        }
+    }
     // ---- queries are pure: the first problem asked again answers exactly as it did the first time
     st.rig.drv.set_problem_definition(st.rig.pd.clone());
     let res1b = match guarded(|| st.rig.drv.solve(LONG)) {
